@@ -4,6 +4,9 @@ import (
 	"encoding/binary"
 	"encoding/hex"
 	"fmt"
+	"os"
+	"path/filepath"
+	"strconv"
 	"strings"
 
 	"verifsim/kernel"
@@ -544,7 +547,7 @@ func checkC14(c *Ctx) {
 	if c.Tier == "thorough" {
 		nConv, multi = 120, 2000
 	}
-	c.Rule = "corpus = every uplink and downlink NGAP message of simulated conversations (all on-path types, swarm-varied) plus the encodings of the library's own builders; for each corpus message the single-fault space is enumerated completely: every strict prefix, every single-bit flip, every octet set to 00/7F/80/FF/C1/C4, every octet pair set to FFFF/7FFF/8000/BFFF/C4C4, runs of C4 (8, 40), FF (8), 00 (8) at every offset (adversarial lengths, counts and fragmented length determinants), and structure-consistent faults: the value of every top-level IE replaced by nothing, by every single octet and by 60 two-/three-octet values while the IE's and the message's length determinants are kept right; thorough adds seeded multi-octet faults, splices and random strings. evaluation = one ngap.Decoder call; oracle: returns (PDU | error), no panic, no fatal error, <= 16 MiB allocated and <= 5 s per call. distinct = distinct (corpus message, mutation); non-trivial = all (the genuine message itself is decoded too)"
+	c.Rule = "corpus = every uplink and downlink NGAP message of simulated conversations (all on-path types, swarm-varied) plus the encodings of the library's own builders plus, for every message type of the NGAP schema (all initiating messages and outcomes, each with every IE its container knows), a smallest, a largest and drawn well-formed values built from the library's Go types and aper tags and encoded by the library's encoder; for each corpus message the single-fault space is enumerated completely: every strict prefix, every single-bit flip, every octet set to 00/7F/80/FF/C1/C4, every octet pair set to FFFF/7FFF/8000/BFFF/C4C4, runs of C4 (8, 40), FF (8), 00 (8) at every offset (adversarial lengths, counts and fragmented length determinants), and structure-consistent faults: the value of every top-level IE replaced by nothing, by every single octet and by 60 two-/three-octet values while the IE's and the message's length determinants are kept right; thorough adds seeded multi-octet faults, splices and random strings. evaluation = one ngap.Decoder call; oracle: returns (PDU | error), no panic, no fatal error, <= 16 MiB allocated and <= 5 s per call. distinct = distinct (corpus message, mutation); non-trivial = all (the genuine message itself is decoded too)"
 	c.Assume = []string{"thresholds (16 MiB, 5 s per call for inputs <= 4 KiB) are far above honest behaviour so that they never trip on correct code",
 		"the corpus need not be independent of the library: the builders' own encodings are used for breadth"}
 	c.Components = map[string][]string{"real": {"free5gclib/ngap.Decoder", "free5gclib/aper", "free5gclib/ngap/ngapType"}, "stub": {"none: message-corruption faults are applied to the byte strings handed to the decoder"}}
@@ -572,14 +575,56 @@ func checkC14(c *Ctx) {
 		}
 	})
 	// 2. library builders
+	var schemaLines []string
 	bs := lsScenario(root.Uint64(), "corpus", nil)
+	bs.Rig["schema_random"] = 2
+	if c.Tier == "thorough" {
+		bs.Rig["schema_random"] = 8
+	}
+	if v, err := strconv.Atoi(os.Getenv("VSIM_SCHEMA_RANDOM")); err == nil { // maintenance: regenerating /verif/corpus
+		bs.Rig["schema_random"] = v
+	}
 	c.Batch([]Job{{S: bs, Rig: "ls", Judge: "ls", Tag: "c14-corpus-builders"}}, func(j Job, r *Run, fs []Finding) {
 		for _, e := range r.Events {
 			if e.Ev == "corpus" {
 				corpus[e.Hex] = true
 			}
+			if e.Ev == "corpus" && strings.HasPrefix(e.Label, "schema:") {
+				schemaLines = append(schemaLines, e.Label[7:]+" "+e.Hex)
+			}
+			if e.Ev == "schema" {
+				for k, v := range e.Info {
+					if f, ok := v.(float64); ok {
+						c.Probes["schema-"+k] = int(f)
+					}
+				}
+			}
 		}
 	})
+	// 2b. the same schema-driven messages as encoded by the pinned tree's encoder, kept as data under
+	// /verif/corpus: a change to a type's constraints alters what the tree's own encoder emits (or makes
+	// it refuse the message), so the tree under test cannot be the only source of well-formed inputs
+	if out := os.Getenv("VSIM_WRITE_CORPUS"); out != "" {
+		sortStrings(schemaLines)
+		os.WriteFile(out, []byte(strings.Join(schemaLines, "\n")+"\n"), 0644)
+		harnessFail("C14: corpus of %d schema messages written to %s (maintenance mode, nothing was checked)", len(schemaLines), out)
+	}
+	files := []string{"ngap_schema_quick.txt"}
+	if c.Tier == "thorough" {
+		files = append(files, "ngap_schema_more.txt")
+	}
+	for _, f := range files {
+		b, err := os.ReadFile(filepath.Join(verifDir(), "corpus", f))
+		if err != nil {
+			harnessFail("C14: stored corpus %s: %v", f, err)
+		}
+		for _, ln := range strings.Split(string(b), "\n") {
+			if i := strings.IndexByte(ln, ' '); i > 0 {
+				corpus[ln[i+1:]] = true
+				c.Probes["stored-schema-messages"]++
+			}
+		}
+	}
 	c.Evals = evalsBefore
 	c.sigs = map[string]bool{}
 	var msgs []string
